@@ -280,6 +280,29 @@ theorem spres_pRetract (id : Id) (x : Option Nat) : SPres (pRetract id x) := by
       | exact h1
       | (refine h1.set id _ ?_ rfl; exact hy.edit _ (by decide) rfl rfl rfl rfl rfl rfl rfl rfl rfl)
 
+theorem applyAct_imm (a : Act) (r : Row) :
+    (applyAct a r).ty = r.ty ∧ (applyAct a r).key = r.key ∧ (applyAct a r).tup = r.tup ∧ (applyAct a r).pay = r.pay := by
+  cases a <;> exact ⟨rfl, rfl, rfl, rfl⟩
+
+theorem spres_pAct (id : Id) (a : Act) : SPres (pAct id a) := by
+  intro s tx e h
+  unfold pAct
+  split
+  · exact h.same rfl
+  · rename_i tx1 x hl
+    obtain ⟨h1, hx⟩ := load_entry h hl
+    split
+    · exact h1
+    · refine h1.set id _ ?_ rfl
+      obtain ⟨i1, i2, i3, i4⟩ := applyAct_imm a x.row
+      exact hx.edit .update (by decide) rfl rfl i1 i2 i3 i4 rfl rfl rfl
+
+theorem SInv.pActs (id : Id) (acts : List Act) {p : PS} (h : SInv p) : SInv (pActs id acts p) := by
+  unfold Tx.pActs
+  induction acts generalizing p with
+  | nil => exact h
+  | cons a r ih => exact ih (h.andThen (spres_pAct id a))
+
 theorem spres_pPurge (id : Id) (b : Bool) : SPres (pPurge id b) := by
   intro s tx e h
   unfold pPurge
@@ -352,7 +375,14 @@ macro "spres_chain" h:ident : tactic => `(tactic|
 
 theorem applyClause_spres (c : Clause) : SPres (applyClause c) := by
   intro s tx e h
-  cases c <;> simp only [applyClause] <;> (repeat' split) <;> spres_chain h
+  cases c with
+  | update t acts expect bad =>
+      simp only [applyClause]
+      split
+      · spres_chain h
+      · apply SInv.pActs
+        spres_chain h
+  | _ => simp only [applyClause] <;> (repeat' split) <;> spres_chain h
 
 theorem declareClause_spres (c : Clause) : SPres (declareClause c) := by
   intro s tx e h
